@@ -7,6 +7,7 @@ import re
 
 from harness.engine import termbytes
 from harness.engine import tlc as T
+from harness.engine.core import run_extension
 
 SPEC = os.path.join(T.SPECS, "ProgressBar")
 OPS = ["start", "advance", "set", "display", "clear", "finish"]
@@ -81,6 +82,8 @@ def build(cfg, via, how=None):
         target = out.section()
         if verb is not None:
             target.set_verbosity(verb)
+        for p in cfg.get("secpre", []):  # lines the section holds of its own before the bar is created
+            target.write_line("".join(p))
     elif via == "io":
         target = IO(Input(StringInputStream("")), Output(BufferedOutputStream(), fmt), out)
     return stream, target
@@ -252,6 +255,7 @@ class Runner(object):
         cfg = self.cfg = case["cfg"]
         self.conf = {"fmt": cfg["fmt"], "bw": cfg["bw"], "chars": cfg.get("chars", DEFAULT_CHARS)}
         cfg.setdefault("chars", DEFAULT_CHARS)
+        cfg.setdefault("secpre", [])
         cfg.setdefault("freq", 1)
         self.msg = case.get("msg0", "m")
         self.nops = 0
@@ -419,6 +423,7 @@ def case_of_behaviour(b):
         ops.append(op)
     cfg = dict(b["cfg"])
     cfg["pre"] = [list(x) for x in cfg["pre"]]
+    cfg["secpre"] = [list(x) for x in cfg.get("secpre", [])]
     cfg.update(_conf(b["events"][0]["conf"]))
     return {"cfg": cfg, "ops": ops, "msg0": "m"}
 
@@ -453,6 +458,10 @@ def nontrivial(case):
 
 # ------------------------------------------------------------------------------------------------ random cases
 # messages with markup: only once the padding defect (notes, audit finding) is repaired - _overwrite pads the raw line
+# a section that already holds lines of its own when the bar is created: only once the first-frame defect (notes,
+# triage of fb049da09d8b) is repaired - the first display clears one line of the section although the bar has not
+# written anything yet.  After the repair also set MCSecPre <- OneSecPre in MC_ProgressBar_emit_custom_quick.cfg.
+SECTION_CONTENT_ABOVE = True
 MARKUP_MESSAGES = True
 MESSAGES = ["m", "", "hello", "a much longer message", "x y", u"gr\u00fc\u00df"] + (
     ["<info>ok</info> go", "<b>bold</b>"] if MARKUP_MESSAGES else [])
@@ -479,6 +488,8 @@ def random_case(rng, maxlen=60):
             "ctor": rng.choice(["pos", "kw"]), "mingap_by": rng.choice(["ctor", "setter"])}
     if mode in ("section", "quiet"):
         case["via"] = "output"
+    if SECTION_CONTENT_ABOVE and mode == "section" and fmt != "two" and rng.random() < 0.6:
+        cfg["secpre"] = [list(rng.choice(["sec", "s s", "section line"])) for _ in range(rng.choice([1, 1, 2]))]
     if mode == "section" and fmt != "two" and rng.random() < 0.5:
         cfg["w"] = rng.choice([20, 24, 31, 40, 45])  # the section folds the frame; COLUMNS is what the section sees
     family = PLAIN_FAMILY if fmt in PLAIN_FAMILY else VERBOSE_FAMILY if fmt in VERBOSE_FAMILY else []
@@ -701,7 +712,7 @@ def run(ctx):
     # with a line break
     from harness.props import ext_bar
 
-    ext_bar.run_ext(ctx)
+    run_extension(ctx, "bar", ext_bar.run_ext)
 
 
 def replay(ctx, path):
